@@ -324,6 +324,9 @@ def post_batch(tier, base_seed, results):
     ev, vs = scn_c02.callcache_probe(tier, base_seed)
     out["evidence"]["compiled_call_sampler_cache_probe"] = ev
     out["violations"] += vs
+    ev, vs = scn_c02.pedcache_probe(tier, base_seed)
+    out["evidence"]["compiled_pedigree_sampler_cache_probe"] = ev
+    out["violations"] += vs
     args = ["cache", base_seed % (2 ** 31), 12, "small"] if tier != "thorough" else ["cache", base_seed % (2 ** 31), 96]
     doc, cmd = scn_c02.run_compiled_probe(args, timeout=3 * 3600)
     out["evidence"]["compiled_cache_probe"] = {"cases": doc["cases"], "cases_overflowing_the_real_cache_limit": doc["big_cases"],
